@@ -207,7 +207,16 @@ pub fn gen_case(g: &mut Gen) -> Case {
     let want_fault = g.chance(1, 6);
     let mut fault = false;
     let n = g.range(0, 10);
-    let lines = (0..n).map(|_| gen_line(g, &mut fault, want_fault)).collect();
+    let mut lines: Vec<Line> = (0..n).map(|_| gen_line(g, &mut fault, want_fault)).collect();
+    // a line that comes back verbatim further down (blocklists repeat
+    // themselves; between the two copies another line may have remapped
+    // the name)
+    if lines.len() >= 2 && g.chance(1, 3) {
+        let from = g.below(lines.len() - 1);
+        let copy = lines[from].clone();
+        let at = g.range(from + 2, lines.len());
+        lines.insert(at, copy);
+    }
     Case { lines, fault, unix_newlines: !g.chance(1, 8) }
 }
 
